@@ -12,7 +12,7 @@ use crate::parser::{
     CsrImm, HasRegisterSets, InstructionProperties, LabelString, LabelStringToken,
     RegisterProperties,
 };
-use crate::parser::{LoadType, ParserNode, Register};
+use crate::parser::{LoadType, ParserNode, Register, StoreType};
 use crate::passes::{CfgError, GenerationPass};
 
 use super::memory_location::MemoryLocation;
@@ -169,12 +169,37 @@ impl GenerationPass for AvailableValuePass {
                     out_reg_n.extend(Register::sp_ra_set().into_available_values());
                 }
 
-                // out_memory[n] = (gen_memory[n] if we know the location of the stack pointer) U in_memory[n]
-                // (There is no kill_stacks[n])
+                // out_memory[n] = (gen_memory[n] if we know the location of the stack pointer) U (in_memory[n] - kill_stacks[n])
                 let mut out_memory_n = if node.is_any_entry() {
                     AvailableValueMap::new()
                 } else {
                     let mut map = node.memory_values_in();
+                    // kill_stacks[n]: a store through sp overwrites every slot it overlaps
+                    // (all of them if the position of sp is not known)
+                    if let ParserNode::Store(store) = node.node() {
+                        if store.rs1.get().is_stack_pointer() {
+                            let width = match store.inst.get() {
+                                StoreType::Sb => 1,
+                                StoreType::Sh => 2,
+                                StoreType::Sw => 4,
+                            };
+                            let first = node
+                                .reg_values_in()
+                                .stack_offset()
+                                .map(|curr| i64::from(curr) + i64::from(store.imm.get().value()));
+                            map = map
+                                .into_iter()
+                                .filter(|(location, _)| match (location, first) {
+                                    (MemoryLocation::StackOffset(slot), Some(first)) => {
+                                        let slot = i64::from(*slot);
+                                        slot + 4 <= first || first + width <= slot
+                                    }
+                                    (MemoryLocation::StackOffset(_), None) => false,
+                                    _ => true,
+                                })
+                                .collect();
+                        }
+                    }
                     if let Some((MemoryLocation::StackOffset(offset), value)) =
                         node.gen_memory_value()
                     {
